@@ -109,6 +109,14 @@ func (c *Ctx) globalFacts(g *ssa.Global, ref string) {
 	if g.Pkg == nil || w.mutableGlobals()[g.Pkg.Pkg.Path()+"."+g.Name()] {
 		return
 	}
+	if g.Pkg.Pkg.Path() == "encoding/base64" && strings.HasSuffix(g.Name(), "Encoding") {
+		// the four standard encodings are non-nil package-level pointers
+		t0 := g.Type().(*types.Pointer).Elem()
+		h, srt := c.cellHeap(t0)
+		id := 80000 + w.globalIDs["glob$"+mangle(g.Pkg.Pkg.Path())+"."+g.Name()]
+		c.Decls = append(c.Decls, "(assert "+eq("(select "+c.heapInit(h, srt)+" "+ref+")", fmt.Sprintf("(* %d %s)", id, refStride))+")")
+		return
+	}
 	init := g.Pkg.Func("init")
 	if init == nil {
 		return
